@@ -15,7 +15,8 @@ PROPS = {
                 "judged against the statement's table and the delay interval [d0(1-j), d0(1+j)], d0=min(base*2^(a-1),cap) in exact integer arithmetic "
                 "(tolerance 1e-9 relative + 1 ns), plus exactly one matching attempt record; 1 case in 8 sweeps every status x every attempt selector. "
                 "lifecycle tier: the real runRoute loop on a fake clock (memory and SQLite) with per-target behaviour scripts, 1-3 targets, 1-6 messages, "
-                "per-item / batch / batch-with-one-injected-failure / store-without-batch mutation paths, operator RequeueDead rounds; every lease mutation is "
+                "per-item / batch / batch-with-one-injected-failure / store-without-batch mutation paths, operator RequeueDead rounds, in one case of three the stop signal of "
+                "Drain arriving during the k-th Deliver call (every result obtained so far must be applied before the loop returns, the unsent rest goes back to the queue, a new dispatcher takes over); every lease mutation is "
                 "checked against the table when it is applied; <= max+1 Deliver calls per message per cycle, terminal state delivered/removed or dead with the "
                 "table's reason, one attempt record per Deliver call; non-trivial (lifecycle) = a retry followed by a different outcome class; table cases with "
                 "an accepted config are all non-trivial; distinct by SHA-256 of the case JSON. "
